@@ -4,7 +4,7 @@ from .e3common import run_e3, MOD, replay as _replay
 
 def main(ctx):
     ctx.level = 'other'
-    ms = ((2, 2), (3, 2)) if ctx.quick else ((2, 2), (3, 2), (2, 3), (3, 3), (4, 2))
+    ms = ((2, 2), (3, 2), (3, 3)) if ctx.quick else ((2, 2), (3, 2), (2, 3), (3, 3), (4, 2))
     cexs = run_e3(ctx, 'C15', 5 if ctx.quick else 7, word_filter=lambda w: 9 in w, ms_variants=ms, suffix_styles=(0,),
                   fillings=(False,), histories=True, mirror=False)
     from . import c15n
